@@ -86,7 +86,9 @@ Record upstream := MU {
   u_tls_skip : bool; u_preserve_host : bool; u_skip_signing : bool;
   u_skip_preflight : bool; u_pass_token : bool;
   u_provider_slug : str; u_cookie_name : str;
-  u_hmac : bool }.
+  u_hmac : bool;
+  u_route : list str }.             (* simple: [from scheme; from host; to scheme; to host] of the parsed
+                                       URLs; rewrite: [""; ""; configured scheme; ""] (ToTemplate) *)
 
 (* ------------------------------------------------------------------------------------------ *)
 (* mergo v0.3.7 deepMerge for the shapes that occur.                                            *)
@@ -248,7 +250,12 @@ Definition E_options : N := 3.
 Definition E_hmac : N := 4.
 Definition E_norule : N := 5.
 
-Record oracle := MOr { url_ok : str -> bool; re_ok : str -> bool; digest_ok : str -> bool }.
+(* [url_ok s] / [url_parts s]: does net/url.Parse accept the value completed with the configured
+   scheme (prefix "<scheme>://" unless the value contains "://"), and which (scheme, host) does it
+   yield; [cfg_scheme]: the configured scheme (uc.Scheme). The harness computes them with
+   net/url itself, NOT with the repository's urlParse. *)
+Record oracle := MOr { url_ok : str -> bool; re_ok : str -> bool; digest_ok : str -> bool;
+                       url_parts : str -> str * str; cfg_scheme : str }.
 
 Record env := ME {
   e_cluster : str;          (* uc.Cluster *)
@@ -320,6 +327,12 @@ Definition route_kind (O : oracle) (r : routecfg) : result N :=
     if re_ok O (rc_from r) then Ok 1 else Err E_route
   else Err E_route.
 
+(* SimpleRoute{FromURL, ToURL} = urlParse of both ends; RewriteRoute.ToTemplate = {Scheme, Opaque} *)
+Definition route_parts (O : oracle) (r : routecfg) (k : N) : list str :=
+  if k =? 0 then [fst (url_parts O (rc_from r)); snd (url_parts O (rc_from r));
+                  fst (url_parts O (rc_to r)); snd (url_parts O (rc_to r))]
+  else [[]; []; cfg_scheme O; []].
+
 (* the OptionsConfig that parseOptionsConfig computes (lines 374-392) *)
 Definition effective_opts (defaults : opts) (r : routecfg) : opts :=
   let dst := merge_opts true empty_opts defaults in
@@ -340,7 +353,8 @@ Definition parse_options (O : oracle) (defaults : opts) (uk : upstream0 * N) : r
            (o_header_overrides o) (o_inject_headers o)
            (o_tls_skip o) (o_preserve_host o) (o_skip_signing o)
            false false
-           (o_provider_slug o) (o_cookie_name o) false)
+           (o_provider_slug o) (o_cookie_name o) false
+           (route_parts O (u0_route u) (snd uk)))
   else Err E_options.
 
 (* generateHmacAuth: "hash:key", exactly two components, known digest *)
@@ -354,7 +368,7 @@ Definition set_hmac (u : upstream) (b : bool) : upstream :=
   MU (u_service u) (u_from u) (u_to u) (u_type u) (u_kind u) (u_groups u) (u_domains u) (u_addresses u)
      (u_skip u) (u_timeout u) (u_reset_deadline u) (u_flush_interval u) (u_header_overrides u)
      (u_inject_headers u) (u_tls_skip u) (u_preserve_host u) (u_skip_signing u) (u_skip_preflight u)
-     (u_pass_token u) (u_provider_slug u) (u_cookie_name u) b.
+     (u_pass_token u) (u_provider_slug u) (u_cookie_name u) b (u_route u).
 
 (* loadServiceConfigs:213-228 *)
 Definition add_hmac (O : oracle) (tv : smap) (u : upstream) : result upstream :=
